@@ -528,6 +528,85 @@ fn strings_one_after_the_other(sh: &mut Shard) {
     }
 }
 
+/// A string that was LOOKED AT before it is edited in place: whatever an observation remembers about a value
+/// (a length, a position, a digest) must not outlive the edit. For every length of a ladder (every length up to
+/// 70, then around 100 / 128 / 256 / 1000), plain and with wide characters: one of 8 observations (compared
+/// with an equal literal, with a different one of the same length, with a longer one, measured, read at the
+/// front / back, converted, printed), then a one-character replacement at the front / middle / back (same
+/// width and different width), then everything observed again.
+fn looked_at_then_edited(sh: &mut Shard) {
+    let tier = sh.cfg.tier;
+    let lens: Vec<usize> = (1..=70usize).chain([99, 100, 127, 128, 129, 255, 256, 257, 1000]).collect();
+    for len in lens {
+        for wide in [None, Some('é'), Some('😀')] {
+            let text: String = (0..len).map(|i| if wide.is_some() && i % 5 == 2 { wide.unwrap() } else { (b'a' + (i % 26) as u8) as char }).collect();
+            if wide.is_some() && len < 3 {
+                continue;
+            }
+            let mut other = text.chars().collect::<Vec<_>>();
+            let last = other.len() - 1;
+            other[last] = '~';
+            let other: String = other.into_iter().collect();
+            let l = len as i64;
+            let mut targets = vec![0i64, l / 2, l - 1];
+            targets.dedup();
+            for look in 0..9usize {
+                for &at in &targets {
+                    for rep in ["#", "ß"] {
+                        if tier == Tier::Quick && len > 70 && rep == "ß" && look % 2 == 1 {
+                            continue;
+                        }
+                        if !sh.mine() {
+                            continue;
+                        }
+                        let looked: Vec<Stmt> = match look {
+                            0 => vec![],
+                            1 => vec![let_("eerder", infix(id("s"), Operator::Eq, string(&text)))],
+                            2 => vec![let_("eerder", infix(id("s"), Operator::Eq, string(&other)))],
+                            3 => vec![let_("eerder", infix(id("s"), Operator::Neq, string(&format!("{text}+"))))],
+                            4 => vec![let_("eerder", calln("lengte", vec![id("s")]))],
+                            5 => vec![let_("eerder", index(id("s"), int(l - 1)))],
+                            6 => vec![let_("eerder", index(id("s"), int_lit(-l)))],
+                            7 => vec![let_("eerder", calln("string", vec![id("s")]))],
+                            _ => vec![es(calln("print", vec![id("s")])), let_("eerder", infix(id("s"), Operator::Eq, id("s")))],
+                        };
+                        let mut expected: Vec<char> = text.chars().collect();
+                        expected[at as usize] = rep.chars().next().unwrap();
+                        let expected: String = expected.into_iter().collect();
+                        // (no alias: whether two names share one string is U8)
+                        let mut prog = vec![let_("s", string(&text))];
+                        prog.extend(looked);
+                        prog.push(es(assign(index(id("s"), int(at)), string(rep))));
+                        prog.push(es(calln(
+                            "print",
+                            vec![
+                                string("{} {} {} {} {} {} {}"),
+                                infix(id("s"), Operator::Eq, string(&expected)),
+                                infix(string(&expected), Operator::Eq, id("s")),
+                                infix(id("s"), Operator::Eq, string(&text)),
+                                infix(id("s"), Operator::Neq, string(&expected)),
+                                calln("lengte", vec![id("s")]),
+                                index(id("s"), int(at)),
+                                index(id("s"), int_lit(-1)),
+                            ],
+                        )));
+                        prog.push(es(id("s")));
+                        sh.begin(&|| format!("looked at ({look}) then edited at {at} with {rep:?}: {len} characters, wide {wide:?}"));
+                        sh.count("family:looked-at-then-edited");
+                        if let Some(r) = differential(sh, "sweep", &prog, RunOpts { budget: Some(2_000_000), ledger: ledger(), trace: false, render: true }) {
+                            if !matches!(r.model.end, End::Unspec(_) | End::Diverge) {
+                                sh.nontrivial(&(ledger(), len, look, at, rep, wide.is_some()));
+                            } else {
+                                sh.count("looked-at-unspecified");
+                            }
+                        }
+                    }
+                }
+            }
+        }
+    }
+}
+
 /// Every code point of the C08 list as the middle character of a three-character string: it is ONE character
 /// for `lengte`, for reading from both ends and for replacement, whatever its width or purpose.
 fn code_point_sweep(sh: &mut Shard) {
@@ -560,11 +639,13 @@ fn run(sh: &mut Shard) {
     code_point_sweep(sh);
     // second pass first: the cheap families again without the shadow heap (real address reuse)
     LEDGER.with(|c| c.set(false));
+    looked_at_then_edited(sh);
     strings_one_after_the_other(sh);
     length_ladder(sh);
     sweep(sh);
     self_consistency(sh);
     LEDGER.with(|c| c.set(true));
+    looked_at_then_edited(sh);
     strings_one_after_the_other(sh);
     // a literal evaluated again is pristine, whatever its earlier value went through
     for prog in crate::slices::literal_pristine_programs() {
